@@ -128,8 +128,11 @@ var c20Items = []c20Item{
 type c20Case struct {
 	Items    []int  `json:"items"`
 	BodyLen  int    `json:"body_len"`
-	Trailers string `json:"trailers"` // none | valid | pseudo
-	Pos      int    `json:"pos"`      // 0 first, 1 middle, 2 last
+	Trailers string `json:"trailers"`                      // none | valid | pseudo
+	Pos      int    `json:"pos"`                           // 0 first, 1 middle, 2 last
+	Split    int    `json:"split"`                         // >0: header block cut into HEADERS+CONTINUATION at this offset
+	PadData  int    `json:"pad_data"`                      // >0: DATA sent with this much padding (stored +1; 0 = none)
+	CLPadded bool   `json:"content_length_counts_padding"` // content-length = DATA payload size incl. padding (malformed)
 }
 
 func c20Fields(cs c20Case, id uint32) (fields []ref.Field, names []string) {
@@ -164,11 +167,20 @@ func c20Fields(cs c20Case, id uint32) (fields []ref.Field, names []string) {
 }
 
 func sendPlain(h *harness.Server, id uint32, fields []ref.Field, body []byte, trailers []ref.Field) {
+	sendPlainX(h, id, fields, body, trailers, 0, -1)
+}
+
+func sendPlainX(h *harness.Server, id uint32, fields []ref.Field, body []byte, trailers []ref.Field, split, pad int) {
 	blk := staticBlock(fields)
 	hasMore := len(body) > 0 || trailers != nil
-	h.SendFrames(peer.Headers(id, blk, peer.HeadersOpt{EndStream: !hasMore, EndHeaders: true, Pad: -1}))
+	if split > 0 && split <= len(blk) {
+		h.SendFrames(peer.Headers(id, blk[:split], peer.HeadersOpt{EndStream: !hasMore, Pad: -1}))
+		h.SendFrames(peer.Continuation(id, blk[split:], true))
+	} else {
+		h.SendFrames(peer.Headers(id, blk, peer.HeadersOpt{EndStream: !hasMore, EndHeaders: true, Pad: -1}))
+	}
 	if len(body) > 0 {
-		h.SendFrames(peer.Data(id, body, trailers == nil, -1))
+		h.SendFrames(peer.Data(id, body, trailers == nil, pad))
 	}
 	if trailers != nil {
 		h.SendFrames(peer.Headers(id, staticBlock(trailers), peer.HeadersOpt{EndStream: true, EndHeaders: true, Pad: -1}))
@@ -210,16 +222,27 @@ func c20Run(cs c20Case) (*fw.Violation, *harness.Server) {
 		case "pseudo":
 			trailers = []ref.Field{{Name: ":path", Value: "/t"}, {Name: "x-trailer", Value: "t"}}
 		}
+		pad := cs.PadData - 1
+		if cs.CLPadded && pad >= 0 && len(body) > 0 {
+			fields = append(fields, ref.Field{Name: "content-length", Value: fmt.Sprint(len(body) + pad + 1)})
+			xNames += "+content-length counts padding"
+		}
 		verdict = ref.RequestWellFormed(fields, len(body), trailers)
 		calls := len(h.Calls)
 		from := len(h.Out)
-		sendPlain(h, id, fields, body, trailers)
+		sendPlainX(h, id, fields, body, trailers, cs.Split, pad)
 		dispatched := len(h.Calls) > calls
 		shape := xNames
 		if shape == "" {
 			shape = "base"
 		}
 		shape += fmt.Sprintf(" body=%d trailers=%s", cs.BodyLen, cs.Trailers)
+		if cs.Split > 0 {
+			shape += " continuation"
+		}
+		if pad >= 0 {
+			shape += " padded-data"
+		}
 		if len(h.GoAways) > 0 || h.C.Closed() {
 			return mk("whole-connection-refused", orWF(verdict)+" -> "+reactionClass(h.Reaction(from)), fmt.Sprintf("request on stream %d (%s; RFC 7540 8.1.2 verdict: %s) ended the connection: %s", id, xNames, orWF(verdict), h.Reaction(from))), h
 		}
@@ -324,6 +347,44 @@ func runC20(c *fw.Ctx) {
 		}
 	}
 	c.Family("server")
+	// every single item with the block cut at every offset, and with padded DATA
+	one := func(cs c20Case) {
+		if item++; !c.Mine(item) {
+			return
+		}
+		v, h := c20Run(cs)
+		js, _ := json.Marshal(cs)
+		c.Eval(nt(true, js))
+		c.AddTransitions(int64(h.Events))
+		c.AddTraces(1)
+		if v != nil {
+			c.Violate(*v)
+			c.Outcome(v.Rule)
+		} else {
+			c.Outcome("ok:fragmented")
+		}
+		h.Close()
+	}
+	for it := -1; it < len(c20Items); it++ {
+		var items []int
+		if it >= 0 {
+			items = []int{it}
+		}
+		fields, _ := c20Fields(c20Case{Items: items, BodyLen: 5, Trailers: "none"}, 3)
+		n := len(staticBlock(fields))
+		for off := 1; off < n; off++ {
+			if c.Expired("C20 fragmented") {
+				break
+			}
+			one(c20Case{Items: items, BodyLen: 5, Trailers: "none", Pos: 1, Split: off})
+		}
+		for _, pd := range []int{1, 5, 256} {
+			one(c20Case{Items: items, BodyLen: 5, Trailers: "none", Pos: 1, PadData: pd})
+			one(c20Case{Items: items, BodyLen: 5, Trailers: "valid", Pos: 1, PadData: pd})
+			one(c20Case{Items: items, BodyLen: 5, Trailers: "none", Pos: 1, PadData: pd, CLPadded: true})
+		}
+	}
+	c.Family("server-fragmented")
 	runC20Client(c)
 }
 
